@@ -331,6 +331,32 @@ func (ev *evaluator) eval(fr *evalFrame, v ssa.Value, depth int) (interface{}, b
 				}
 				return nil, false
 			case *ssa.IndexAddr:
+				// one rune or byte of an evaluated string: []rune(s)[i], []byte(s)[i]
+				if cv, isCv := addr.X.(*ssa.Convert); isCv && isStringType(cv.X.Type()) {
+					sv, ok1 := ev.eval(fr, cv.X, depth+1)
+					iv, ok2 := ev.eval(fr, addr.Index, depth+1)
+					str, isS := sv.(string)
+					i, isI := iv.(int64)
+					if !ok1 || !ok2 || !isS || !isI || i < 0 {
+						return nil, false
+					}
+					if sl, isSl := cv.Type().Underlying().(*types.Slice); isSl {
+						if b, isB := sl.Elem().Underlying().(*types.Basic); isB && b.Kind() == types.Int32 {
+							rs := []rune(str)
+							if int(i) >= len(rs) {
+								ev.panicked = true
+								return nil, false
+							}
+							return int64(rs[i]), true
+						}
+						if int(i) >= len(str) {
+							ev.panicked = true
+							return nil, false
+						}
+						return int64(str[i]), true
+					}
+					return nil, false
+				}
 				if ld, isLd := addr.X.(*ssa.UnOp); isLd && ld.Op == token.MUL {
 					if g, isG := ld.X.(*ssa.Global); isG {
 						tv := globalTVal(g)
